@@ -86,6 +86,8 @@ REGISTRY["C01"]["theorems"] += S("C01", "C01_push_back", "C01_push_front", "C01_
                                   "C01_pop_back", "C01_pop_front", "C01_swap", "C01_swap_remove_back",
                                   "C01_swap_remove_front", "C01_truncate_back", "C01_truncate_front", "C01_clear",
                                   "C01_remove", "C01_make_contiguous")
+REGISTRY["C01"]["theorems"] += [("CircBuf.Props.Src.History", "C01_history_src")]
+REGISTRY["C03"]["theorems"] += [("CircBuf.Props.Src.History", "C03_history_ledger_src")]
 REGISTRY["C05"]["theorems"] += S("C05", "C05_drop_range", "C05_truncate_back", "C05_truncate_front", "C05_clear")
 REGISTRY["C02"]["theorems"] += S("C02", "C02_push_back", "C02_push_front", "C02_try_push_back", "C02_try_push_front")
 REGISTRY["C04"]["theorems"] += S("C04", "C04_push_back", "C04_push_front", "C04_pop_back", "C04_pop_front", "C04_swap_remove_back", "C04_remove")
